@@ -5,7 +5,7 @@
 From Coq Require Import ZArith List Bool.
 From LV Require Import GainLoss.RoseTree GainLoss.Replay GainLoss.ReplayProofs GainLoss.GetGls
   GainLoss.GetGlsProofs GainLoss.GetGlsTopProofs GainLoss.GetGLSr GainLoss.GetGLSrProofs GainLoss.TopDown
-  GainLoss.TopDownProofs GainLoss.GainLossExec.
+  GainLoss.TopDownProofs GainLoss.GetGlsDefinedProofs GainLoss.GainLossExec.
 Import ListNotations.
 Local Open Scope Z_scope.
 
@@ -24,6 +24,16 @@ Theorem C07_get_gls_replays :
     reproduces md pat t ev.
 Proof. exact get_gls_replays. Qed.
 Print Assumptions C07_get_gls_replays.
+
+(* and get_gls does return a scenario: for every pattern with at least one presence and gpl >= 0
+   no node is left without a scenario (the code's min() never sees an empty dictionary) *)
+Theorem C07_get_gls_defined :
+  forall (pat : list (Z * Z)) (t : tree) (gpl g l : Z) (push : bool) (md : Z),
+    pattern_known pat t -> (md = 0 \/ md = -1) -> 0 <= gpl ->
+    has_present (is_present pat) t = true ->
+    exists ev, get_gls pat t gpl g l push md = Ok ev.
+Proof. exact get_gls_defined. Qed.
+Print Assumptions C07_get_gls_defined.
 
 (* the intermediate invariant: every scenario kept at any node replays correctly inside
    that node's subtree (with the node in the scenario's state), and names only nodes below it *)
@@ -46,17 +56,18 @@ Theorem C07_get_GLSr_replays :
 Proof. exact get_GLSr_replays. Qed.
 Print Assumptions C07_get_GLSr_replays.
 
-(* top-down mode: PhyBo._get_GLS_top_down, every restriction value.  Guard: the common ancestor
-   of the presences is an internal node (i.e. there are at least two presences) or the restriction
-   is 1: PhyBo.get_GLS answers single-presence patterns itself and never calls the method on them
-   (called directly on a single presence with restriction >= 2 the method returns []). *)
+(* top-down mode: PhyBo._get_GLS_top_down, every restriction value.  Guard: at least two leaves
+   are present, or the restriction is 1.  PhyBo.get_GLS answers single-presence patterns itself and
+   never calls the method on them (called directly on a single presence with restriction >= 2 the
+   method returns [], see ex_topdown_single_presence below). *)
 Theorem C07_top_down_replays :
   forall (pat : list (Z * Z)) (t : tree) (mode md : Z) (ev : list (Z * Z)),
     NoDup (names t) -> pattern_known pat t -> (md = 0 \/ md = -1) ->
-    (is_tip (lca_sub (present_ge1 (recode md pat)) t) = false \/ mode = 1) ->
+    ((2 <= length (filter (fun n => match lookup n pat with Some s => (s =? 1)%Z | None => false end) (tips t)))%nat
+     \/ mode = 1) ->
     top_down pat t mode md = Ok ev ->
     reproduces md pat t ev.
-Proof. exact top_down_replays. Qed.
+Proof. exact top_down_replays_two_presences. Qed.
 Print Assumptions C07_top_down_replays.
 
 (* the checker that is run on every implementation output decides [reproduces] *)
@@ -94,11 +105,9 @@ Example ex_restriction_too_tight : get_GLSr ex_pat ex_tree (ModeR 0) 1 true 0 = 
 Proof. vm_compute. reflexivity. Qed.
 Example ex_topdown : top_down ex_pat ex_tree 2 0 = Ok [(1, 1); (3, 1); (10, 0)].
 Proof. vm_compute. reflexivity. Qed.
-Example ex_topdown_guard : is_tip (lca_sub (present_ge1 (recode 0 ex_pat)) ex_tree) = false.
-Proof. vm_compute. reflexivity. Qed.
 Example ex_topdown_reproduces : reproduces 0 ex_pat ex_tree [(1, 1); (3, 1); (10, 0)].
 Proof.
-  exact (C07_top_down_replays _ _ _ _ _ ex_nodup ex_known (or_introl eq_refl) (or_introl ex_topdown_guard) ex_topdown).
+  exact (C07_top_down_replays _ _ _ _ _ ex_nodup ex_known (or_introl eq_refl) (or_introl (le_n 2)) ex_topdown).
 Qed.
 (* the guard of the top-down theorem is needed: a single presence, restriction 2 *)
 Example ex_topdown_single_presence :
